@@ -1,13 +1,13 @@
-(* Moon.moon_phase(epoch, 'full'): consecutive results (index k -> k+1) differ by one synodic month within the
-   term-by-term difference bound.  Written by mkdiff.py from the source text; uses the closed form of C15_p_moon_phase_full.v. *)
+(* Moon.moon_phase(epoch, 'last'): consecutive results (index k -> k+1) differ by one synodic month within the
+   term-by-term difference bound.  Written by mkdiff.py from the source text; uses the closed form of C15_p_moon_phase_last.v. *)
 From Coq Require Import Reals ZArith List Bool Lra Lia.
 From Interval Require Import Tactic.
 From PyLib Require Import PyVal PyBuiltins Ideal.
 From Spec Require Import MoonFinder.
 From Proofs.C15 Require Import C15_angle C15_fdefs C15_diff.
-From Proofs.C15 Require C15_p_moon_phase_full.
+From Proofs.C15 Require C15_p_moon_phase_last.
 Open Scope R_scope.
-Module P := C15_p_moon_phase_full.
+Module P := C15_p_moon_phase_last.
 Ltac lit := repeat match goal with |- context [Rlit ?m ?e] =>
   let r := eval cbv -[IZR Rdiv Rmult Rinv Rplus Ropp] in (Rlit m e) in change (Rlit m e) with r end.
 Ltac lit_in H := repeat match type of H with context [Rlit ?m ?e] =>
@@ -15,7 +15,7 @@ Ltac lit_in H := repeat match type of H with context [Rlit ?m ?e] =>
 
 Lemma term_0 (xM eM xMprime eMprime xF eF xOmega eOmega E0 dE : R) (m0M m1M m0Mprime m1Mprime m0F m1F m0Omega m1Omega : Z) :
   Rabs eM <= 1 / 100 -> Rabs eMprime <= 1 / 100 -> Rabs eF <= 1 / 100 -> Rabs eOmega <= 1 / 100 -> 8 / 10 <= E0 <= 10908 / 10000 -> 8 / 10 <= E0 + dE <= 10908 / 10000 -> Rabs dE <= 1 / 10000 ->
-  Rabs (((Rlit (-40614) (-5)) * (sin ((xMprime + Rlit 38581693528 (-8) + eMprime) * (PI / 180) + 2 * IZR m1Mprime * PI))) - ((Rlit (-40614) (-5)) * (sin (xMprime * (PI / 180) + 2 * IZR m0Mprime * PI)))) <= Rlit 1816908 (-7).
+  Rabs (((Rlit (-62801) (-5)) * (sin ((xMprime + Rlit 38581693528 (-8) + eMprime) * (PI / 180) + 2 * IZR m1Mprime * PI))) - ((Rlit (-62801) (-5)) * (sin (xMprime * (PI / 180) + 2 * IZR m0Mprime * PI)))) <= Rlit 2809466 (-7).
 Proof.
   intros HM HMprime HF HOmega HE0 HE1 HdE.
   apply abs_le_inv in HM.
@@ -23,7 +23,7 @@ Proof.
   apply abs_le_inv in HF.
   apply abs_le_inv in HOmega.
   apply abs_le_inv in HdE.
-  eapply Rle_trans; [ eapply (term_bound _ _ _ _ (Rlit 40614000 (-8)) (Rlit 0 (-9)) (Rlit 223680 (-6))) | lit; lra ].
+  eapply Rle_trans; [ eapply (term_bound _ _ _ _ (Rlit 62801000 (-8)) (Rlit 0 (-9)) (Rlit 223680 (-6))) | lit; lra ].
   - lit. apply abs_le. lra.
   - lit. apply abs_le. lra.
   - replace ((((xMprime + Rlit 38581693528 (-8) + eMprime) * (PI / 180) + 2 * IZR m1Mprime * PI) - (xMprime * (PI / 180) + 2 * IZR m0Mprime * PI)) / 2) with ((IZR (1) * (Rlit 38581693528 (-8) + eMprime)) * (PI / 360) + IZR ((1) * (m1Mprime - m0Mprime)) * PI)
@@ -33,7 +33,7 @@ Proof.
 Qed.
 Lemma term_1 (xM eM xMprime eMprime xF eF xOmega eOmega E0 dE : R) (m0M m1M m0Mprime m1Mprime m0F m1F m0Omega m1Omega : Z) :
   Rabs eM <= 1 / 100 -> Rabs eMprime <= 1 / 100 -> Rabs eF <= 1 / 100 -> Rabs eOmega <= 1 / 100 -> 8 / 10 <= E0 <= 10908 / 10000 -> 8 / 10 <= E0 + dE <= 10908 / 10000 -> Rabs dE <= 1 / 10000 ->
-  Rabs ((((Rlit 17302 (-5)) * (E0 + dE)) * (sin ((xM + Rlit 291053567 (-7) + eM) * (PI / 180) + 2 * IZR m1M * PI))) - (((Rlit 17302 (-5)) * E0) * (sin (xM * (PI / 180) + 2 * IZR m0M * PI)))) <= Rlit 949694 (-7).
+  Rabs ((((Rlit 17172 (-5)) * (E0 + dE)) * (sin ((xM + Rlit 291053567 (-7) + eM) * (PI / 180) + 2 * IZR m1M * PI))) - (((Rlit 17172 (-5)) * E0) * (sin (xM * (PI / 180) + 2 * IZR m0M * PI)))) <= Rlit 942559 (-7).
 Proof.
   intros HM HMprime HF HOmega HE0 HE1 HdE.
   apply abs_le_inv in HM.
@@ -41,7 +41,7 @@ Proof.
   apply abs_le_inv in HF.
   apply abs_le_inv in HOmega.
   apply abs_le_inv in HdE.
-  eapply Rle_trans; [ eapply (term_bound _ _ _ _ (Rlit 18873022 (-8)) (Rlit 17302 (-9)) (Rlit 251555 (-6))) | lit; lra ].
+  eapply Rle_trans; [ eapply (term_bound _ _ _ _ (Rlit 18731218 (-8)) (Rlit 17172 (-9)) (Rlit 251555 (-6))) | lit; lra ].
   - lit. apply abs_le. split; nra.
   - lit. apply abs_le. split; nra.
   - replace ((((xM + Rlit 291053567 (-7) + eM) * (PI / 180) + 2 * IZR m1M * PI) - (xM * (PI / 180) + 2 * IZR m0M * PI)) / 2) with ((IZR (1) * (Rlit 291053567 (-7) + eM)) * (PI / 360) + IZR ((1) * (m1M - m0M)) * PI)
@@ -51,7 +51,7 @@ Proof.
 Qed.
 Lemma term_2 (xM eM xMprime eMprime xF eF xOmega eOmega E0 dE : R) (m0M m1M m0Mprime m1Mprime m0F m1F m0Omega m1Omega : Z) :
   Rabs eM <= 1 / 100 -> Rabs eMprime <= 1 / 100 -> Rabs eF <= 1 / 100 -> Rabs eOmega <= 1 / 100 -> 8 / 10 <= E0 <= 10908 / 10000 -> 8 / 10 <= E0 + dE <= 10908 / 10000 -> Rabs dE <= 1 / 10000 ->
-  Rabs (((Rlit 1614 (-5)) * (sin ((Rlit 20 (-1)) * ((xMprime + Rlit 38581693528 (-8) + eMprime) * (PI / 180) + 2 * IZR m1Mprime * PI)))) - ((Rlit 1614 (-5)) * (sin ((Rlit 20 (-1)) * (xMprime * (PI / 180) + 2 * IZR m0Mprime * PI))))) <= Rlit 140694 (-7).
+  Rabs ((((Rlit 1183 (-5)) * (E0 + dE)) * (sin (((xMprime + Rlit 38581693528 (-8) + eMprime) * (PI / 180) + 2 * IZR m1Mprime * PI) + ((xM + Rlit 291053567 (-7) + eM) * (PI / 180) + 2 * IZR m1M * PI)))) - (((Rlit 1183 (-5)) * E0) * (sin ((xMprime * (PI / 180) + 2 * IZR m0Mprime * PI) + (xM * (PI / 180) + 2 * IZR m0M * PI))))) <= Rlit 119118 (-7).
 Proof.
   intros HM HMprime HF HOmega HE0 HE1 HdE.
   apply abs_le_inv in HM.
@@ -59,61 +59,7 @@ Proof.
   apply abs_le_inv in HF.
   apply abs_le_inv in HOmega.
   apply abs_le_inv in HdE.
-  eapply Rle_trans; [ eapply (term_bound _ _ _ _ (Rlit 1614000 (-8)) (Rlit 0 (-9)) (Rlit 435855 (-6))) | lit; lra ].
-  - lit. apply abs_le. lra.
-  - lit. apply abs_le. lra.
-  - replace ((((Rlit 20 (-1)) * ((xMprime + Rlit 38581693528 (-8) + eMprime) * (PI / 180) + 2 * IZR m1Mprime * PI)) - ((Rlit 20 (-1)) * (xMprime * (PI / 180) + 2 * IZR m0Mprime * PI))) / 2) with ((IZR (2) * (Rlit 38581693528 (-8) + eMprime)) * (PI / 360) + IZR ((2) * (m1Mprime - m0Mprime)) * PI)
-      by (rewrite ?plus_IZR, ?mult_IZR, ?minus_IZR, ?opp_IZR; lit; field).
-    rewrite abs_sin_shift. lit. apply abs_le. split; interval.
-  - lit. lra.
-Qed.
-Lemma term_3 (xM eM xMprime eMprime xF eF xOmega eOmega E0 dE : R) (m0M m1M m0Mprime m1Mprime m0F m1F m0Omega m1Omega : Z) :
-  Rabs eM <= 1 / 100 -> Rabs eMprime <= 1 / 100 -> Rabs eF <= 1 / 100 -> Rabs eOmega <= 1 / 100 -> 8 / 10 <= E0 <= 10908 / 10000 -> 8 / 10 <= E0 + dE <= 10908 / 10000 -> Rabs dE <= 1 / 10000 ->
-  Rabs (((Rlit 1043 (-5)) * (sin ((Rlit 20 (-1)) * ((xF + Rlit 39067050284 (-8) + eF) * (PI / 180) + 2 * IZR m1F * PI)))) - ((Rlit 1043 (-5)) * (sin ((Rlit 20 (-1)) * (xF * (PI / 180) + 2 * IZR m0F * PI))))) <= Rlit 106481 (-7).
-Proof.
-  intros HM HMprime HF HOmega HE0 HE1 HdE.
-  apply abs_le_inv in HM.
-  apply abs_le_inv in HMprime.
-  apply abs_le_inv in HF.
-  apply abs_le_inv in HOmega.
-  apply abs_le_inv in HdE.
-  eapply Rle_trans; [ eapply (term_bound _ _ _ _ (Rlit 1043000 (-8)) (Rlit 0 (-9)) (Rlit 510451 (-6))) | lit; lra ].
-  - lit. apply abs_le. lra.
-  - lit. apply abs_le. lra.
-  - replace ((((Rlit 20 (-1)) * ((xF + Rlit 39067050284 (-8) + eF) * (PI / 180) + 2 * IZR m1F * PI)) - ((Rlit 20 (-1)) * (xF * (PI / 180) + 2 * IZR m0F * PI))) / 2) with ((IZR (2) * (Rlit 39067050284 (-8) + eF)) * (PI / 360) + IZR ((2) * (m1F - m0F)) * PI)
-      by (rewrite ?plus_IZR, ?mult_IZR, ?minus_IZR, ?opp_IZR; lit; field).
-    rewrite abs_sin_shift. lit. apply abs_le. split; interval.
-  - lit. lra.
-Qed.
-Lemma term_4 (xM eM xMprime eMprime xF eF xOmega eOmega E0 dE : R) (m0M m1M m0Mprime m1Mprime m0F m1F m0Omega m1Omega : Z) :
-  Rabs eM <= 1 / 100 -> Rabs eMprime <= 1 / 100 -> Rabs eF <= 1 / 100 -> Rabs eOmega <= 1 / 100 -> 8 / 10 <= E0 <= 10908 / 10000 -> 8 / 10 <= E0 + dE <= 10908 / 10000 -> Rabs dE <= 1 / 10000 ->
-  Rabs ((((Rlit 734 (-5)) * (E0 + dE)) * (sin (((xMprime + Rlit 38581693528 (-8) + eMprime) * (PI / 180) + 2 * IZR m1Mprime * PI) - ((xM + Rlit 291053567 (-7) + eM) * (PI / 180) + 2 * IZR m1M * PI)))) - (((Rlit 734 (-5)) * E0) * (sin ((xMprime * (PI / 180) + 2 * IZR m0Mprime * PI) - (xM * (PI / 180) + 2 * IZR m0M * PI))))) <= Rlit 4662 (-7).
-Proof.
-  intros HM HMprime HF HOmega HE0 HE1 HdE.
-  apply abs_le_inv in HM.
-  apply abs_le_inv in HMprime.
-  apply abs_le_inv in HF.
-  apply abs_le_inv in HOmega.
-  apply abs_le_inv in HdE.
-  eapply Rle_trans; [ eapply (term_bound _ _ _ _ (Rlit 800648 (-8)) (Rlit 734 (-9)) (Rlit 29068 (-6))) | lit; lra ].
-  - lit. apply abs_le. split; nra.
-  - lit. apply abs_le. split; nra.
-  - replace (((((xMprime + Rlit 38581693528 (-8) + eMprime) * (PI / 180) + 2 * IZR m1Mprime * PI) - ((xM + Rlit 291053567 (-7) + eM) * (PI / 180) + 2 * IZR m1M * PI)) - ((xMprime * (PI / 180) + 2 * IZR m0Mprime * PI) - (xM * (PI / 180) + 2 * IZR m0M * PI))) / 2) with ((IZR (1) * (Rlit 38581693528 (-8) + eMprime) + IZR (-1) * (Rlit 291053567 (-7) + eM)) * (PI / 360) + IZR ((1) * (m1Mprime - m0Mprime) + (-1) * (m1M - m0M)) * PI)
-      by (rewrite ?plus_IZR, ?mult_IZR, ?minus_IZR, ?opp_IZR; lit; field).
-    rewrite abs_sin_shift. lit. apply abs_le. split; interval.
-  - lit. lra.
-Qed.
-Lemma term_5 (xM eM xMprime eMprime xF eF xOmega eOmega E0 dE : R) (m0M m1M m0Mprime m1Mprime m0F m1F m0Omega m1Omega : Z) :
-  Rabs eM <= 1 / 100 -> Rabs eMprime <= 1 / 100 -> Rabs eF <= 1 / 100 -> Rabs eOmega <= 1 / 100 -> 8 / 10 <= E0 <= 10908 / 10000 -> 8 / 10 <= E0 + dE <= 10908 / 10000 -> Rabs dE <= 1 / 10000 ->
-  Rabs ((((Rlit 515 (-5)) * (E0 + dE)) * (sin (((xMprime + Rlit 38581693528 (-8) + eMprime) * (PI / 180) + 2 * IZR m1Mprime * PI) + ((xM + Rlit 291053567 (-7) + eM) * (PI / 180) + 2 * IZR m1M * PI)))) - (((Rlit 515 (-5)) * E0) * (sin ((xMprime * (PI / 180) + 2 * IZR m0Mprime * PI) + (xM * (PI / 180) + 2 * IZR m0M * PI))))) <= Rlit 51857 (-7).
-Proof.
-  intros HM HMprime HF HOmega HE0 HE1 HdE.
-  apply abs_le_inv in HM.
-  apply abs_le_inv in HMprime.
-  apply abs_le_inv in HF.
-  apply abs_le_inv in HOmega.
-  apply abs_le_inv in HdE.
-  eapply Rle_trans; [ eapply (term_bound _ _ _ _ (Rlit 561762 (-8)) (Rlit 515 (-9)) (Rlit 461502 (-6))) | lit; lra ].
+  eapply Rle_trans; [ eapply (term_bound _ _ _ _ (Rlit 1290417 (-8)) (Rlit 1183 (-9)) (Rlit 461502 (-6))) | lit; lra ].
   - lit. apply abs_le. split; nra.
   - lit. apply abs_le. split; nra.
   - replace (((((xMprime + Rlit 38581693528 (-8) + eMprime) * (PI / 180) + 2 * IZR m1Mprime * PI) + ((xM + Rlit 291053567 (-7) + eM) * (PI / 180) + 2 * IZR m1M * PI)) - ((xMprime * (PI / 180) + 2 * IZR m0Mprime * PI) + (xM * (PI / 180) + 2 * IZR m0M * PI))) / 2) with ((IZR (1) * (Rlit 38581693528 (-8) + eMprime) + IZR (1) * (Rlit 291053567 (-7) + eM)) * (PI / 360) + IZR ((1) * (m1Mprime - m0Mprime) + (1) * (m1M - m0M)) * PI)
@@ -121,9 +67,9 @@ Proof.
     rewrite abs_sin_shift. lit. apply abs_le. split; interval.
   - lit. lra.
 Qed.
-Lemma term_6 (xM eM xMprime eMprime xF eF xOmega eOmega E0 dE : R) (m0M m1M m0Mprime m1Mprime m0F m1F m0Omega m1Omega : Z) :
+Lemma term_3 (xM eM xMprime eMprime xF eF xOmega eOmega E0 dE : R) (m0M m1M m0Mprime m1Mprime m0F m1F m0Omega m1Omega : Z) :
   Rabs eM <= 1 / 100 -> Rabs eMprime <= 1 / 100 -> Rabs eF <= 1 / 100 -> Rabs eOmega <= 1 / 100 -> 8 / 10 <= E0 <= 10908 / 10000 -> 8 / 10 <= E0 + dE <= 10908 / 10000 -> Rabs dE <= 1 / 10000 ->
-  Rabs (((((Rlit 209 (-5)) * (E0 + dE)) * (E0 + dE)) * (sin ((Rlit 20 (-1)) * ((xM + Rlit 291053567 (-7) + eM) * (PI / 180) + 2 * IZR m1M * PI)))) - ((((Rlit 209 (-5)) * E0) * E0) * (sin ((Rlit 20 (-1)) * (xM * (PI / 180) + 2 * IZR m0M * PI))))) <= Rlit 24215 (-7).
+  Rabs (((Rlit 862 (-5)) * (sin ((Rlit 20 (-1)) * ((xMprime + Rlit 38581693528 (-8) + eMprime) * (PI / 180) + 2 * IZR m1Mprime * PI)))) - ((Rlit 862 (-5)) * (sin ((Rlit 20 (-1)) * (xMprime * (PI / 180) + 2 * IZR m0Mprime * PI))))) <= Rlit 75142 (-7).
 Proof.
   intros HM HMprime HF HOmega HE0 HE1 HdE.
   apply abs_le_inv in HM.
@@ -131,9 +77,63 @@ Proof.
   apply abs_le_inv in HF.
   apply abs_le_inv in HOmega.
   apply abs_le_inv in HdE.
-  eapply Rle_trans; [ eapply (term_bound _ _ _ _ (Rlit 248678 (-8)) (Rlit 456 (-9)) (Rlit 486770 (-6))) | lit; lra ].
+  eapply Rle_trans; [ eapply (term_bound _ _ _ _ (Rlit 862000 (-8)) (Rlit 0 (-9)) (Rlit 435855 (-6))) | lit; lra ].
+  - lit. apply abs_le. lra.
+  - lit. apply abs_le. lra.
+  - replace ((((Rlit 20 (-1)) * ((xMprime + Rlit 38581693528 (-8) + eMprime) * (PI / 180) + 2 * IZR m1Mprime * PI)) - ((Rlit 20 (-1)) * (xMprime * (PI / 180) + 2 * IZR m0Mprime * PI))) / 2) with ((IZR (2) * (Rlit 38581693528 (-8) + eMprime)) * (PI / 360) + IZR ((2) * (m1Mprime - m0Mprime)) * PI)
+      by (rewrite ?plus_IZR, ?mult_IZR, ?minus_IZR, ?opp_IZR; lit; field).
+    rewrite abs_sin_shift. lit. apply abs_le. split; interval.
+  - lit. lra.
+Qed.
+Lemma term_4 (xM eM xMprime eMprime xF eF xOmega eOmega E0 dE : R) (m0M m1M m0Mprime m1Mprime m0F m1F m0Omega m1Omega : Z) :
+  Rabs eM <= 1 / 100 -> Rabs eMprime <= 1 / 100 -> Rabs eF <= 1 / 100 -> Rabs eOmega <= 1 / 100 -> 8 / 10 <= E0 <= 10908 / 10000 -> 8 / 10 <= E0 + dE <= 10908 / 10000 -> Rabs dE <= 1 / 10000 ->
+  Rabs (((Rlit 804 (-5)) * (sin ((Rlit 20 (-1)) * ((xF + Rlit 39067050284 (-8) + eF) * (PI / 180) + 2 * IZR m1F * PI)))) - ((Rlit 804 (-5)) * (sin ((Rlit 20 (-1)) * (xF * (PI / 180) + 2 * IZR m0F * PI))))) <= Rlit 82081 (-7).
+Proof.
+  intros HM HMprime HF HOmega HE0 HE1 HdE.
+  apply abs_le_inv in HM.
+  apply abs_le_inv in HMprime.
+  apply abs_le_inv in HF.
+  apply abs_le_inv in HOmega.
+  apply abs_le_inv in HdE.
+  eapply Rle_trans; [ eapply (term_bound _ _ _ _ (Rlit 804000 (-8)) (Rlit 0 (-9)) (Rlit 510451 (-6))) | lit; lra ].
+  - lit. apply abs_le. lra.
+  - lit. apply abs_le. lra.
+  - replace ((((Rlit 20 (-1)) * ((xF + Rlit 39067050284 (-8) + eF) * (PI / 180) + 2 * IZR m1F * PI)) - ((Rlit 20 (-1)) * (xF * (PI / 180) + 2 * IZR m0F * PI))) / 2) with ((IZR (2) * (Rlit 39067050284 (-8) + eF)) * (PI / 360) + IZR ((2) * (m1F - m0F)) * PI)
+      by (rewrite ?plus_IZR, ?mult_IZR, ?minus_IZR, ?opp_IZR; lit; field).
+    rewrite abs_sin_shift. lit. apply abs_le. split; interval.
+  - lit. lra.
+Qed.
+Lemma term_5 (xM eM xMprime eMprime xF eF xOmega eOmega E0 dE : R) (m0M m1M m0Mprime m1Mprime m0F m1F m0Omega m1Omega : Z) :
+  Rabs eM <= 1 / 100 -> Rabs eMprime <= 1 / 100 -> Rabs eF <= 1 / 100 -> Rabs eOmega <= 1 / 100 -> 8 / 10 <= E0 <= 10908 / 10000 -> 8 / 10 <= E0 + dE <= 10908 / 10000 -> Rabs dE <= 1 / 10000 ->
+  Rabs ((((Rlit 454 (-5)) * (E0 + dE)) * (sin (((xMprime + Rlit 38581693528 (-8) + eMprime) * (PI / 180) + 2 * IZR m1Mprime * PI) - ((xM + Rlit 291053567 (-7) + eM) * (PI / 180) + 2 * IZR m1M * PI)))) - (((Rlit 454 (-5)) * E0) * (sin ((xMprime * (PI / 180) + 2 * IZR m0Mprime * PI) - (xM * (PI / 180) + 2 * IZR m0M * PI))))) <= Rlit 2884 (-7).
+Proof.
+  intros HM HMprime HF HOmega HE0 HE1 HdE.
+  apply abs_le_inv in HM.
+  apply abs_le_inv in HMprime.
+  apply abs_le_inv in HF.
+  apply abs_le_inv in HOmega.
+  apply abs_le_inv in HdE.
+  eapply Rle_trans; [ eapply (term_bound _ _ _ _ (Rlit 495224 (-8)) (Rlit 454 (-9)) (Rlit 29068 (-6))) | lit; lra ].
+  - lit. apply abs_le. split; nra.
+  - lit. apply abs_le. split; nra.
+  - replace (((((xMprime + Rlit 38581693528 (-8) + eMprime) * (PI / 180) + 2 * IZR m1Mprime * PI) - ((xM + Rlit 291053567 (-7) + eM) * (PI / 180) + 2 * IZR m1M * PI)) - ((xMprime * (PI / 180) + 2 * IZR m0Mprime * PI) - (xM * (PI / 180) + 2 * IZR m0M * PI))) / 2) with ((IZR (1) * (Rlit 38581693528 (-8) + eMprime) + IZR (-1) * (Rlit 291053567 (-7) + eM)) * (PI / 360) + IZR ((1) * (m1Mprime - m0Mprime) + (-1) * (m1M - m0M)) * PI)
+      by (rewrite ?plus_IZR, ?mult_IZR, ?minus_IZR, ?opp_IZR; lit; field).
+    rewrite abs_sin_shift. lit. apply abs_le. split; interval.
+  - lit. lra.
+Qed.
+Lemma term_6 (xM eM xMprime eMprime xF eF xOmega eOmega E0 dE : R) (m0M m1M m0Mprime m1Mprime m0F m1F m0Omega m1Omega : Z) :
+  Rabs eM <= 1 / 100 -> Rabs eMprime <= 1 / 100 -> Rabs eF <= 1 / 100 -> Rabs eOmega <= 1 / 100 -> 8 / 10 <= E0 <= 10908 / 10000 -> 8 / 10 <= E0 + dE <= 10908 / 10000 -> Rabs dE <= 1 / 10000 ->
+  Rabs (((((Rlit 204 (-5)) * (E0 + dE)) * (E0 + dE)) * (sin ((Rlit 20 (-1)) * ((xM + Rlit 291053567 (-7) + eM) * (PI / 180) + 2 * IZR m1M * PI)))) - ((((Rlit 204 (-5)) * E0) * E0) * (sin ((Rlit 20 (-1)) * (xM * (PI / 180) + 2 * IZR m0M * PI))))) <= Rlit 23636 (-7).
+Proof.
+  intros HM HMprime HF HOmega HE0 HE1 HdE.
+  apply abs_le_inv in HM.
+  apply abs_le_inv in HMprime.
+  apply abs_le_inv in HF.
+  apply abs_le_inv in HOmega.
+  apply abs_le_inv in HdE.
+  eapply Rle_trans; [ eapply (term_bound _ _ _ _ (Rlit 242729 (-8)) (Rlit 446 (-9)) (Rlit 486770 (-6))) | lit; lra ].
   - remember (E0 + dE) as E1 eqn:HE1e. lit. apply abs_le. split; interval.
-  - match goal with |- Rabs ?z <= _ => replace z with (Rlit 209 (-5) * (dE * (2 * E0 + dE))) by (lit; ring) end.
+  - match goal with |- Rabs ?z <= _ => replace z with (Rlit 204 (-5) * (dE * (2 * E0 + dE))) by (lit; ring) end.
     lit. apply abs_le. split; interval.
   - replace ((((Rlit 20 (-1)) * ((xM + Rlit 291053567 (-7) + eM) * (PI / 180) + 2 * IZR m1M * PI)) - ((Rlit 20 (-1)) * (xM * (PI / 180) + 2 * IZR m0M * PI))) / 2) with ((IZR (2) * (Rlit 291053567 (-7) + eM)) * (PI / 360) + IZR ((2) * (m1M - m0M)) * PI)
       by (rewrite ?plus_IZR, ?mult_IZR, ?minus_IZR, ?opp_IZR; lit; field).
@@ -142,7 +142,7 @@ Proof.
 Qed.
 Lemma term_7 (xM eM xMprime eMprime xF eF xOmega eOmega E0 dE : R) (m0M m1M m0Mprime m1Mprime m0F m1F m0Omega m1Omega : Z) :
   Rabs eM <= 1 / 100 -> Rabs eMprime <= 1 / 100 -> Rabs eF <= 1 / 100 -> Rabs eOmega <= 1 / 100 -> 8 / 10 <= E0 <= 10908 / 10000 -> 8 / 10 <= E0 + dE <= 10908 / 10000 -> Rabs dE <= 1 / 10000 ->
-  Rabs (((Rlit 111 (-5)) * (sin (((xMprime + Rlit 38581693528 (-8) + eMprime) * (PI / 180) + 2 * IZR m1Mprime * PI) - ((Rlit 20 (-1)) * ((xF + Rlit 39067050284 (-8) + eF) * (PI / 180) + 2 * IZR m1F * PI))))) - ((Rlit 111 (-5)) * (sin ((xMprime * (PI / 180) + 2 * IZR m0Mprime * PI) - ((Rlit 20 (-1)) * (xF * (PI / 180) + 2 * IZR m0F * PI)))))) <= Rlit 6783 (-7).
+  Rabs (((Rlit 18 (-4)) * (sin (((xMprime + Rlit 38581693528 (-8) + eMprime) * (PI / 180) + 2 * IZR m1Mprime * PI) - ((Rlit 20 (-1)) * ((xF + Rlit 39067050284 (-8) + eF) * (PI / 180) + 2 * IZR m1F * PI))))) - ((Rlit 18 (-4)) * (sin ((xMprime * (PI / 180) + 2 * IZR m0Mprime * PI) - ((Rlit 20 (-1)) * (xF * (PI / 180) + 2 * IZR m0F * PI)))))) <= Rlit 10999 (-7).
 Proof.
   intros HM HMprime HF HOmega HE0 HE1 HdE.
   apply abs_le_inv in HM.
@@ -150,7 +150,7 @@ Proof.
   apply abs_le_inv in HF.
   apply abs_le_inv in HOmega.
   apply abs_le_inv in HdE.
-  eapply Rle_trans; [ eapply (term_bound _ _ _ _ (Rlit 111000 (-8)) (Rlit 0 (-9)) (Rlit 305514 (-6))) | lit; lra ].
+  eapply Rle_trans; [ eapply (term_bound _ _ _ _ (Rlit 180000 (-8)) (Rlit 0 (-9)) (Rlit 305514 (-6))) | lit; lra ].
   - lit. apply abs_le. lra.
   - lit. apply abs_le. lra.
   - replace (((((xMprime + Rlit 38581693528 (-8) + eMprime) * (PI / 180) + 2 * IZR m1Mprime * PI) - ((Rlit 20 (-1)) * ((xF + Rlit 39067050284 (-8) + eF) * (PI / 180) + 2 * IZR m1F * PI))) - ((xMprime * (PI / 180) + 2 * IZR m0Mprime * PI) - ((Rlit 20 (-1)) * (xF * (PI / 180) + 2 * IZR m0F * PI)))) / 2) with ((IZR (1) * (Rlit 38581693528 (-8) + eMprime) + IZR (-2) * (Rlit 39067050284 (-8) + eF)) * (PI / 360) + IZR ((1) * (m1Mprime - m0Mprime) + (-2) * (m1F - m0F)) * PI)
@@ -160,7 +160,7 @@ Proof.
 Qed.
 Lemma term_8 (xM eM xMprime eMprime xF eF xOmega eOmega E0 dE : R) (m0M m1M m0Mprime m1Mprime m0F m1F m0Omega m1Omega : Z) :
   Rabs eM <= 1 / 100 -> Rabs eMprime <= 1 / 100 -> Rabs eF <= 1 / 100 -> Rabs eOmega <= 1 / 100 -> 8 / 10 <= E0 <= 10908 / 10000 -> 8 / 10 <= E0 + dE <= 10908 / 10000 -> Rabs dE <= 1 / 10000 ->
-  Rabs (((Rlit 57 (-5)) * (sin (((xMprime + Rlit 38581693528 (-8) + eMprime) * (PI / 180) + 2 * IZR m1Mprime * PI) + ((Rlit 20 (-1)) * ((xF + Rlit 39067050284 (-8) + eF) * (PI / 180) + 2 * IZR m1F * PI))))) - ((Rlit 57 (-5)) * (sin ((xMprime * (PI / 180) + 2 * IZR m0Mprime * PI) + ((Rlit 20 (-1)) * (xF * (PI / 180) + 2 * IZR m0F * PI)))))) <= Rlit 7864 (-7).
+  Rabs (((Rlit 7 (-4)) * (sin (((xMprime + Rlit 38581693528 (-8) + eMprime) * (PI / 180) + 2 * IZR m1Mprime * PI) + ((Rlit 20 (-1)) * ((xF + Rlit 39067050284 (-8) + eF) * (PI / 180) + 2 * IZR m1F * PI))))) - ((Rlit 7 (-4)) * (sin ((xMprime * (PI / 180) + 2 * IZR m0Mprime * PI) + ((Rlit 20 (-1)) * (xF * (PI / 180) + 2 * IZR m0F * PI)))))) <= Rlit 9657 (-7).
 Proof.
   intros HM HMprime HF HOmega HE0 HE1 HdE.
   apply abs_le_inv in HM.
@@ -168,7 +168,7 @@ Proof.
   apply abs_le_inv in HF.
   apply abs_le_inv in HOmega.
   apply abs_le_inv in HdE.
-  eapply Rle_trans; [ eapply (term_bound _ _ _ _ (Rlit 57000 (-8)) (Rlit 0 (-9)) (Rlit 689744 (-6))) | lit; lra ].
+  eapply Rle_trans; [ eapply (term_bound _ _ _ _ (Rlit 70000 (-8)) (Rlit 0 (-9)) (Rlit 689744 (-6))) | lit; lra ].
   - lit. apply abs_le. lra.
   - lit. apply abs_le. lra.
   - replace (((((xMprime + Rlit 38581693528 (-8) + eMprime) * (PI / 180) + 2 * IZR m1Mprime * PI) + ((Rlit 20 (-1)) * ((xF + Rlit 39067050284 (-8) + eF) * (PI / 180) + 2 * IZR m1F * PI))) - ((xMprime * (PI / 180) + 2 * IZR m0Mprime * PI) + ((Rlit 20 (-1)) * (xF * (PI / 180) + 2 * IZR m0F * PI)))) / 2) with ((IZR (1) * (Rlit 38581693528 (-8) + eMprime) + IZR (2) * (Rlit 39067050284 (-8) + eF)) * (PI / 360) + IZR ((1) * (m1Mprime - m0Mprime) + (2) * (m1F - m0F)) * PI)
@@ -178,7 +178,7 @@ Proof.
 Qed.
 Lemma term_9 (xM eM xMprime eMprime xF eF xOmega eOmega E0 dE : R) (m0M m1M m0Mprime m1Mprime m0F m1F m0Omega m1Omega : Z) :
   Rabs eM <= 1 / 100 -> Rabs eMprime <= 1 / 100 -> Rabs eF <= 1 / 100 -> Rabs eOmega <= 1 / 100 -> 8 / 10 <= E0 <= 10908 / 10000 -> 8 / 10 <= E0 + dE <= 10908 / 10000 -> Rabs dE <= 1 / 10000 ->
-  Rabs ((((Rlit 56 (-5)) * (E0 + dE)) * (sin (((Rlit 20 (-1)) * ((xMprime + Rlit 38581693528 (-8) + eMprime) * (PI / 180) + 2 * IZR m1Mprime * PI)) + ((xM + Rlit 291053567 (-7) + eM) * (PI / 180) + 2 * IZR m1M * PI)))) - (((Rlit 56 (-5)) * E0) * (sin (((Rlit 20 (-1)) * (xMprime * (PI / 180) + 2 * IZR m0Mprime * PI)) + (xM * (PI / 180) + 2 * IZR m0M * PI))))) <= Rlit 7919 (-7).
+  Rabs (((Rlit 4 (-4)) * (sin ((Rlit 30 (-1)) * ((xMprime + Rlit 38581693528 (-8) + eMprime) * (PI / 180) + 2 * IZR m1Mprime * PI)))) - ((Rlit 4 (-4)) * (sin ((Rlit 30 (-1)) * (xMprime * (PI / 180) + 2 * IZR m0Mprime * PI))))) <= Rlit 5008 (-7).
 Proof.
   intros HM HMprime HF HOmega HE0 HE1 HdE.
   apply abs_le_inv in HM.
@@ -186,25 +186,7 @@ Proof.
   apply abs_le_inv in HF.
   apply abs_le_inv in HOmega.
   apply abs_le_inv in HdE.
-  eapply Rle_trans; [ eapply (term_bound _ _ _ _ (Rlit 61085 (-8)) (Rlit 56 (-9)) (Rlit 648116 (-6))) | lit; lra ].
-  - lit. apply abs_le. split; nra.
-  - lit. apply abs_le. split; nra.
-  - replace (((((Rlit 20 (-1)) * ((xMprime + Rlit 38581693528 (-8) + eMprime) * (PI / 180) + 2 * IZR m1Mprime * PI)) + ((xM + Rlit 291053567 (-7) + eM) * (PI / 180) + 2 * IZR m1M * PI)) - (((Rlit 20 (-1)) * (xMprime * (PI / 180) + 2 * IZR m0Mprime * PI)) + (xM * (PI / 180) + 2 * IZR m0M * PI))) / 2) with ((IZR (2) * (Rlit 38581693528 (-8) + eMprime) + IZR (1) * (Rlit 291053567 (-7) + eM)) * (PI / 360) + IZR ((2) * (m1Mprime - m0Mprime) + (1) * (m1M - m0M)) * PI)
-      by (rewrite ?plus_IZR, ?mult_IZR, ?minus_IZR, ?opp_IZR; lit; field).
-    rewrite abs_sin_shift. lit. apply abs_le. split; interval.
-  - lit. lra.
-Qed.
-Lemma term_10 (xM eM xMprime eMprime xF eF xOmega eOmega E0 dE : R) (m0M m1M m0Mprime m1Mprime m0F m1F m0Omega m1Omega : Z) :
-  Rabs eM <= 1 / 100 -> Rabs eMprime <= 1 / 100 -> Rabs eF <= 1 / 100 -> Rabs eOmega <= 1 / 100 -> 8 / 10 <= E0 <= 10908 / 10000 -> 8 / 10 <= E0 + dE <= 10908 / 10000 -> Rabs dE <= 1 / 10000 ->
-  Rabs (((Rlit 42 (-5)) * (sin ((Rlit 30 (-1)) * ((xMprime + Rlit 38581693528 (-8) + eMprime) * (PI / 180) + 2 * IZR m1Mprime * PI)))) - ((Rlit 42 (-5)) * (sin ((Rlit 30 (-1)) * (xMprime * (PI / 180) + 2 * IZR m0Mprime * PI))))) <= Rlit 5259 (-7).
-Proof.
-  intros HM HMprime HF HOmega HE0 HE1 HdE.
-  apply abs_le_inv in HM.
-  apply abs_le_inv in HMprime.
-  apply abs_le_inv in HF.
-  apply abs_le_inv in HOmega.
-  apply abs_le_inv in HdE.
-  eapply Rle_trans; [ eapply (term_bound _ _ _ _ (Rlit 42000 (-8)) (Rlit 0 (-9)) (Rlit 625993 (-6))) | lit; lra ].
+  eapply Rle_trans; [ eapply (term_bound _ _ _ _ (Rlit 40000 (-8)) (Rlit 0 (-9)) (Rlit 625993 (-6))) | lit; lra ].
   - lit. apply abs_le. lra.
   - lit. apply abs_le. lra.
   - replace ((((Rlit 30 (-1)) * ((xMprime + Rlit 38581693528 (-8) + eMprime) * (PI / 180) + 2 * IZR m1Mprime * PI)) - ((Rlit 30 (-1)) * (xMprime * (PI / 180) + 2 * IZR m0Mprime * PI))) / 2) with ((IZR (3) * (Rlit 38581693528 (-8) + eMprime)) * (PI / 360) + IZR ((3) * (m1Mprime - m0Mprime)) * PI)
@@ -212,9 +194,9 @@ Proof.
     rewrite abs_sin_shift. lit. apply abs_le. split; interval.
   - lit. lra.
 Qed.
-Lemma term_11 (xM eM xMprime eMprime xF eF xOmega eOmega E0 dE : R) (m0M m1M m0Mprime m1Mprime m0F m1F m0Omega m1Omega : Z) :
+Lemma term_10 (xM eM xMprime eMprime xF eF xOmega eOmega E0 dE : R) (m0M m1M m0Mprime m1Mprime m0F m1F m0Omega m1Omega : Z) :
   Rabs eM <= 1 / 100 -> Rabs eMprime <= 1 / 100 -> Rabs eF <= 1 / 100 -> Rabs eOmega <= 1 / 100 -> 8 / 10 <= E0 <= 10908 / 10000 -> 8 / 10 <= E0 + dE <= 10908 / 10000 -> Rabs dE <= 1 / 10000 ->
-  Rabs ((((Rlit 42 (-5)) * (E0 + dE)) * (sin (((xM + Rlit 291053567 (-7) + eM) * (PI / 180) + 2 * IZR m1M * PI) + ((Rlit 20 (-1)) * ((xF + Rlit 39067050284 (-8) + eF) * (PI / 180) + 2 * IZR m1F * PI))))) - (((Rlit 42 (-5)) * E0) * (sin ((xM * (PI / 180) + 2 * IZR m0M * PI) + ((Rlit 20 (-1)) * (xF * (PI / 180) + 2 * IZR m0F * PI)))))) <= Rlit 6509 (-7).
+  Rabs ((((Rlit 34 (-5)) * (E0 + dE)) * (sin (((Rlit 20 (-1)) * ((xMprime + Rlit 38581693528 (-8) + eMprime) * (PI / 180) + 2 * IZR m1Mprime * PI)) - ((xM + Rlit 291053567 (-7) + eM) * (PI / 180) + 2 * IZR m1M * PI)))) - (((Rlit 34 (-5)) * E0) * (sin (((Rlit 20 (-1)) * (xMprime * (PI / 180) + 2 * IZR m0Mprime * PI)) - (xM * (PI / 180) + 2 * IZR m0M * PI))))) <= Rlit 1453 (-7).
 Proof.
   intros HM HMprime HF HOmega HE0 HE1 HdE.
   apply abs_le_inv in HM.
@@ -222,7 +204,25 @@ Proof.
   apply abs_le_inv in HF.
   apply abs_le_inv in HOmega.
   apply abs_le_inv in HdE.
-  eapply Rle_trans; [ eapply (term_bound _ _ _ _ (Rlit 45814 (-8)) (Rlit 42 (-9)) (Rlit 710241 (-6))) | lit; lra ].
+  eapply Rle_trans; [ eapply (term_bound _ _ _ _ (Rlit 37088 (-8)) (Rlit 34 (-9)) (Rlit 195792 (-6))) | lit; lra ].
+  - lit. apply abs_le. split; nra.
+  - lit. apply abs_le. split; nra.
+  - replace (((((Rlit 20 (-1)) * ((xMprime + Rlit 38581693528 (-8) + eMprime) * (PI / 180) + 2 * IZR m1Mprime * PI)) - ((xM + Rlit 291053567 (-7) + eM) * (PI / 180) + 2 * IZR m1M * PI)) - (((Rlit 20 (-1)) * (xMprime * (PI / 180) + 2 * IZR m0Mprime * PI)) - (xM * (PI / 180) + 2 * IZR m0M * PI))) / 2) with ((IZR (2) * (Rlit 38581693528 (-8) + eMprime) + IZR (-1) * (Rlit 291053567 (-7) + eM)) * (PI / 360) + IZR ((2) * (m1Mprime - m0Mprime) + (-1) * (m1M - m0M)) * PI)
+      by (rewrite ?plus_IZR, ?mult_IZR, ?minus_IZR, ?opp_IZR; lit; field).
+    rewrite abs_sin_shift. lit. apply abs_le. split; interval.
+  - lit. lra.
+Qed.
+Lemma term_11 (xM eM xMprime eMprime xF eF xOmega eOmega E0 dE : R) (m0M m1M m0Mprime m1Mprime m0F m1F m0Omega m1Omega : Z) :
+  Rabs eM <= 1 / 100 -> Rabs eMprime <= 1 / 100 -> Rabs eF <= 1 / 100 -> Rabs eOmega <= 1 / 100 -> 8 / 10 <= E0 <= 10908 / 10000 -> 8 / 10 <= E0 + dE <= 10908 / 10000 -> Rabs dE <= 1 / 10000 ->
+  Rabs ((((Rlit 32 (-5)) * (E0 + dE)) * (sin (((xM + Rlit 291053567 (-7) + eM) * (PI / 180) + 2 * IZR m1M * PI) + ((Rlit 20 (-1)) * ((xF + Rlit 39067050284 (-8) + eF) * (PI / 180) + 2 * IZR m1F * PI))))) - (((Rlit 32 (-5)) * E0) * (sin ((xM * (PI / 180) + 2 * IZR m0M * PI) + ((Rlit 20 (-1)) * (xF * (PI / 180) + 2 * IZR m0F * PI)))))) <= Rlit 4959 (-7).
+Proof.
+  intros HM HMprime HF HOmega HE0 HE1 HdE.
+  apply abs_le_inv in HM.
+  apply abs_le_inv in HMprime.
+  apply abs_le_inv in HF.
+  apply abs_le_inv in HOmega.
+  apply abs_le_inv in HdE.
+  eapply Rle_trans; [ eapply (term_bound _ _ _ _ (Rlit 34906 (-8)) (Rlit 32 (-9)) (Rlit 710241 (-6))) | lit; lra ].
   - lit. apply abs_le. split; nra.
   - lit. apply abs_le. split; nra.
   - replace (((((xM + Rlit 291053567 (-7) + eM) * (PI / 180) + 2 * IZR m1M * PI) + ((Rlit 20 (-1)) * ((xF + Rlit 39067050284 (-8) + eF) * (PI / 180) + 2 * IZR m1F * PI))) - ((xM * (PI / 180) + 2 * IZR m0M * PI) + ((Rlit 20 (-1)) * (xF * (PI / 180) + 2 * IZR m0F * PI)))) / 2) with ((IZR (1) * (Rlit 291053567 (-7) + eM) + IZR (2) * (Rlit 39067050284 (-8) + eF)) * (PI / 360) + IZR ((1) * (m1M - m0M) + (2) * (m1F - m0F)) * PI)
@@ -232,7 +232,7 @@ Proof.
 Qed.
 Lemma term_12 (xM eM xMprime eMprime xF eF xOmega eOmega E0 dE : R) (m0M m1M m0Mprime m1Mprime m0F m1F m0Omega m1Omega : Z) :
   Rabs eM <= 1 / 100 -> Rabs eMprime <= 1 / 100 -> Rabs eF <= 1 / 100 -> Rabs eOmega <= 1 / 100 -> 8 / 10 <= E0 <= 10908 / 10000 -> 8 / 10 <= E0 + dE <= 10908 / 10000 -> Rabs dE <= 1 / 10000 ->
-  Rabs ((((Rlit 38 (-5)) * (E0 + dE)) * (sin (((xM + Rlit 291053567 (-7) + eM) * (PI / 180) + 2 * IZR m1M * PI) - ((Rlit 20 (-1)) * ((xF + Rlit 39067050284 (-8) + eF) * (PI / 180) + 2 * IZR m1F * PI))))) - (((Rlit 38 (-5)) * E0) * (sin ((xM * (PI / 180) + 2 * IZR m0M * PI) - ((Rlit 20 (-1)) * (xF * (PI / 180) + 2 * IZR m0F * PI)))))) <= Rlit 2306 (-7).
+  Rabs ((((Rlit 32 (-5)) * (E0 + dE)) * (sin (((xM + Rlit 291053567 (-7) + eM) * (PI / 180) + 2 * IZR m1M * PI) - ((Rlit 20 (-1)) * ((xF + Rlit 39067050284 (-8) + eF) * (PI / 180) + 2 * IZR m1F * PI))))) - (((Rlit 32 (-5)) * E0) * (sin ((xM * (PI / 180) + 2 * IZR m0M * PI) - ((Rlit 20 (-1)) * (xF * (PI / 180) + 2 * IZR m0F * PI)))))) <= Rlit 1942 (-7).
 Proof.
   intros HM HMprime HF HOmega HE0 HE1 HdE.
   apply abs_le_inv in HM.
@@ -240,7 +240,7 @@ Proof.
   apply abs_le_inv in HF.
   apply abs_le_inv in HOmega.
   apply abs_le_inv in HdE.
-  eapply Rle_trans; [ eapply (term_bound _ _ _ _ (Rlit 41451 (-8)) (Rlit 38 (-9)) (Rlit 278066 (-6))) | lit; lra ].
+  eapply Rle_trans; [ eapply (term_bound _ _ _ _ (Rlit 34906 (-8)) (Rlit 32 (-9)) (Rlit 278066 (-6))) | lit; lra ].
   - lit. apply abs_le. split; nra.
   - lit. apply abs_le. split; nra.
   - replace (((((xM + Rlit 291053567 (-7) + eM) * (PI / 180) + 2 * IZR m1M * PI) - ((Rlit 20 (-1)) * ((xF + Rlit 39067050284 (-8) + eF) * (PI / 180) + 2 * IZR m1F * PI))) - ((xM * (PI / 180) + 2 * IZR m0M * PI) - ((Rlit 20 (-1)) * (xF * (PI / 180) + 2 * IZR m0F * PI)))) / 2) with ((IZR (1) * (Rlit 291053567 (-7) + eM) + IZR (-2) * (Rlit 39067050284 (-8) + eF)) * (PI / 360) + IZR ((1) * (m1M - m0M) + (-2) * (m1F - m0F)) * PI)
@@ -250,7 +250,7 @@ Proof.
 Qed.
 Lemma term_13 (xM eM xMprime eMprime xF eF xOmega eOmega E0 dE : R) (m0M m1M m0Mprime m1Mprime m0F m1F m0Omega m1Omega : Z) :
   Rabs eM <= 1 / 100 -> Rabs eMprime <= 1 / 100 -> Rabs eF <= 1 / 100 -> Rabs eOmega <= 1 / 100 -> 8 / 10 <= E0 <= 10908 / 10000 -> 8 / 10 <= E0 + dE <= 10908 / 10000 -> Rabs dE <= 1 / 10000 ->
-  Rabs ((((Rlit 24 (-5)) * (E0 + dE)) * (sin (((Rlit 20 (-1)) * ((xMprime + Rlit 38581693528 (-8) + eMprime) * (PI / 180) + 2 * IZR m1Mprime * PI)) - ((xM + Rlit 291053567 (-7) + eM) * (PI / 180) + 2 * IZR m1M * PI)))) - (((Rlit 24 (-5)) * E0) * (sin (((Rlit 20 (-1)) * (xMprime * (PI / 180) + 2 * IZR m0Mprime * PI)) - (xM * (PI / 180) + 2 * IZR m0M * PI))))) <= Rlit 1026 (-7).
+  Rabs (((((Rlit 28 (-5)) * (E0 + dE)) * (E0 + dE)) * (sin (((xMprime + Rlit 38581693528 (-8) + eMprime) * (PI / 180) + 2 * IZR m1Mprime * PI) + ((Rlit 20 (-1)) * ((xM + Rlit 291053567 (-7) + eM) * (PI / 180) + 2 * IZR m1M * PI))))) - ((((Rlit 28 (-5)) * E0) * E0) * (sin ((xMprime * (PI / 180) + 2 * IZR m0Mprime * PI) + ((Rlit 20 (-1)) * (xM * (PI / 180) + 2 * IZR m0M * PI)))))) <= Rlit 4463 (-7).
 Proof.
   intros HM HMprime HF HOmega HE0 HE1 HdE.
   apply abs_le_inv in HM.
@@ -258,15 +258,34 @@ Proof.
   apply abs_le_inv in HF.
   apply abs_le_inv in HOmega.
   apply abs_le_inv in HdE.
-  eapply Rle_trans; [ eapply (term_bound _ _ _ _ (Rlit 26180 (-8)) (Rlit 24 (-9)) (Rlit 195792 (-6))) | lit; lra ].
-  - lit. apply abs_le. split; nra.
-  - lit. apply abs_le. split; nra.
-  - replace (((((Rlit 20 (-1)) * ((xMprime + Rlit 38581693528 (-8) + eMprime) * (PI / 180) + 2 * IZR m1Mprime * PI)) - ((xM + Rlit 291053567 (-7) + eM) * (PI / 180) + 2 * IZR m1M * PI)) - (((Rlit 20 (-1)) * (xMprime * (PI / 180) + 2 * IZR m0Mprime * PI)) - (xM * (PI / 180) + 2 * IZR m0M * PI))) / 2) with ((IZR (2) * (Rlit 38581693528 (-8) + eMprime) + IZR (-1) * (Rlit 291053567 (-7) + eM)) * (PI / 360) + IZR ((2) * (m1Mprime - m0Mprime) + (-1) * (m1M - m0M)) * PI)
+  eapply Rle_trans; [ eapply (term_bound _ _ _ _ (Rlit 33316 (-8)) (Rlit 62 (-9)) (Rlit 669705 (-6))) | lit; lra ].
+  - remember (E0 + dE) as E1 eqn:HE1e. lit. apply abs_le. split; interval.
+  - match goal with |- Rabs ?z <= _ => replace z with (Rlit 28 (-5) * (dE * (2 * E0 + dE))) by (lit; ring) end.
+    lit. apply abs_le. split; interval.
+  - replace (((((xMprime + Rlit 38581693528 (-8) + eMprime) * (PI / 180) + 2 * IZR m1Mprime * PI) + ((Rlit 20 (-1)) * ((xM + Rlit 291053567 (-7) + eM) * (PI / 180) + 2 * IZR m1M * PI))) - ((xMprime * (PI / 180) + 2 * IZR m0Mprime * PI) + ((Rlit 20 (-1)) * (xM * (PI / 180) + 2 * IZR m0M * PI)))) / 2) with ((IZR (1) * (Rlit 38581693528 (-8) + eMprime) + IZR (2) * (Rlit 291053567 (-7) + eM)) * (PI / 360) + IZR ((1) * (m1Mprime - m0Mprime) + (2) * (m1M - m0M)) * PI)
       by (rewrite ?plus_IZR, ?mult_IZR, ?minus_IZR, ?opp_IZR; lit; field).
     rewrite abs_sin_shift. lit. apply abs_le. split; interval.
   - lit. lra.
 Qed.
 Lemma term_14 (xM eM xMprime eMprime xF eF xOmega eOmega E0 dE : R) (m0M m1M m0Mprime m1Mprime m0F m1F m0Omega m1Omega : Z) :
+  Rabs eM <= 1 / 100 -> Rabs eMprime <= 1 / 100 -> Rabs eF <= 1 / 100 -> Rabs eOmega <= 1 / 100 -> 8 / 10 <= E0 <= 10908 / 10000 -> 8 / 10 <= E0 + dE <= 10908 / 10000 -> Rabs dE <= 1 / 10000 ->
+  Rabs ((((Rlit 27 (-5)) * (E0 + dE)) * (sin (((Rlit 20 (-1)) * ((xMprime + Rlit 38581693528 (-8) + eMprime) * (PI / 180) + 2 * IZR m1Mprime * PI)) + ((xM + Rlit 291053567 (-7) + eM) * (PI / 180) + 2 * IZR m1M * PI)))) - (((Rlit 27 (-5)) * E0) * (sin (((Rlit 20 (-1)) * (xMprime * (PI / 180) + 2 * IZR m0Mprime * PI)) + (xM * (PI / 180) + 2 * IZR m0M * PI))))) <= Rlit 3818 (-7).
+Proof.
+  intros HM HMprime HF HOmega HE0 HE1 HdE.
+  apply abs_le_inv in HM.
+  apply abs_le_inv in HMprime.
+  apply abs_le_inv in HF.
+  apply abs_le_inv in HOmega.
+  apply abs_le_inv in HdE.
+  eapply Rle_trans; [ eapply (term_bound _ _ _ _ (Rlit 29452 (-8)) (Rlit 27 (-9)) (Rlit 648116 (-6))) | lit; lra ].
+  - lit. apply abs_le. split; nra.
+  - lit. apply abs_le. split; nra.
+  - replace (((((Rlit 20 (-1)) * ((xMprime + Rlit 38581693528 (-8) + eMprime) * (PI / 180) + 2 * IZR m1Mprime * PI)) + ((xM + Rlit 291053567 (-7) + eM) * (PI / 180) + 2 * IZR m1M * PI)) - (((Rlit 20 (-1)) * (xMprime * (PI / 180) + 2 * IZR m0Mprime * PI)) + (xM * (PI / 180) + 2 * IZR m0M * PI))) / 2) with ((IZR (2) * (Rlit 38581693528 (-8) + eMprime) + IZR (1) * (Rlit 291053567 (-7) + eM)) * (PI / 360) + IZR ((2) * (m1Mprime - m0Mprime) + (1) * (m1M - m0M)) * PI)
+      by (rewrite ?plus_IZR, ?mult_IZR, ?minus_IZR, ?opp_IZR; lit; field).
+    rewrite abs_sin_shift. lit. apply abs_le. split; interval.
+  - lit. lra.
+Qed.
+Lemma term_15 (xM eM xMprime eMprime xF eF xOmega eOmega E0 dE : R) (m0M m1M m0Mprime m1Mprime m0F m1F m0Omega m1Omega : Z) :
   Rabs eM <= 1 / 100 -> Rabs eMprime <= 1 / 100 -> Rabs eF <= 1 / 100 -> Rabs eOmega <= 1 / 100 -> 8 / 10 <= E0 <= 10908 / 10000 -> 8 / 10 <= E0 + dE <= 10908 / 10000 -> Rabs dE <= 1 / 10000 ->
   Rabs (((Rlit 17 (-5)) * (sin ((xOmega + Rlit (-156375588) (-8) + eOmega) * (PI / 180) + 2 * IZR m1Omega * PI))) - ((Rlit 17 (-5)) * (sin (xOmega * (PI / 180) + 2 * IZR m0Omega * PI)))) <= Rlit 48 (-7).
 Proof.
@@ -284,27 +303,9 @@ Proof.
     rewrite abs_sin_shift. lit. apply abs_le. split; interval.
   - lit. lra.
 Qed.
-Lemma term_15 (xM eM xMprime eMprime xF eF xOmega eOmega E0 dE : R) (m0M m1M m0Mprime m1Mprime m0F m1F m0Omega m1Omega : Z) :
-  Rabs eM <= 1 / 100 -> Rabs eMprime <= 1 / 100 -> Rabs eF <= 1 / 100 -> Rabs eOmega <= 1 / 100 -> 8 / 10 <= E0 <= 10908 / 10000 -> 8 / 10 <= E0 + dE <= 10908 / 10000 -> Rabs dE <= 1 / 10000 ->
-  Rabs (((Rlit 7 (-5)) * (sin (((xMprime + Rlit 38581693528 (-8) + eMprime) * (PI / 180) + 2 * IZR m1Mprime * PI) + ((Rlit 20 (-1)) * ((xM + Rlit 291053567 (-7) + eM) * (PI / 180) + 2 * IZR m1M * PI))))) - ((Rlit 7 (-5)) * (sin ((xMprime * (PI / 180) + 2 * IZR m0Mprime * PI) + ((Rlit 20 (-1)) * (xM * (PI / 180) + 2 * IZR m0M * PI)))))) <= Rlit 938 (-7).
-Proof.
-  intros HM HMprime HF HOmega HE0 HE1 HdE.
-  apply abs_le_inv in HM.
-  apply abs_le_inv in HMprime.
-  apply abs_le_inv in HF.
-  apply abs_le_inv in HOmega.
-  apply abs_le_inv in HdE.
-  eapply Rle_trans; [ eapply (term_bound _ _ _ _ (Rlit 7000 (-8)) (Rlit 0 (-9)) (Rlit 669705 (-6))) | lit; lra ].
-  - lit. apply abs_le. lra.
-  - lit. apply abs_le. lra.
-  - replace (((((xMprime + Rlit 38581693528 (-8) + eMprime) * (PI / 180) + 2 * IZR m1Mprime * PI) + ((Rlit 20 (-1)) * ((xM + Rlit 291053567 (-7) + eM) * (PI / 180) + 2 * IZR m1M * PI))) - ((xMprime * (PI / 180) + 2 * IZR m0Mprime * PI) + ((Rlit 20 (-1)) * (xM * (PI / 180) + 2 * IZR m0M * PI)))) / 2) with ((IZR (1) * (Rlit 38581693528 (-8) + eMprime) + IZR (2) * (Rlit 291053567 (-7) + eM)) * (PI / 360) + IZR ((1) * (m1Mprime - m0Mprime) + (2) * (m1M - m0M)) * PI)
-      by (rewrite ?plus_IZR, ?mult_IZR, ?minus_IZR, ?opp_IZR; lit; field).
-    rewrite abs_sin_shift. lit. apply abs_le. split; interval.
-  - lit. lra.
-Qed.
 Lemma term_16 (xM eM xMprime eMprime xF eF xOmega eOmega E0 dE : R) (m0M m1M m0Mprime m1Mprime m0F m1F m0Omega m1Omega : Z) :
   Rabs eM <= 1 / 100 -> Rabs eMprime <= 1 / 100 -> Rabs eF <= 1 / 100 -> Rabs eOmega <= 1 / 100 -> 8 / 10 <= E0 <= 10908 / 10000 -> 8 / 10 <= E0 + dE <= 10908 / 10000 -> Rabs dE <= 1 / 10000 ->
-  Rabs (((Rlit 4 (-5)) * (sin ((Rlit 20 (-1)) * (((xMprime + Rlit 38581693528 (-8) + eMprime) * (PI / 180) + 2 * IZR m1Mprime * PI) - ((xF + Rlit 39067050284 (-8) + eF) * (PI / 180) + 2 * IZR m1F * PI))))) - ((Rlit 4 (-5)) * (sin ((Rlit 20 (-1)) * ((xMprime * (PI / 180) + 2 * IZR m0Mprime * PI) - (xF * (PI / 180) + 2 * IZR m0F * PI)))))) <= Rlit 69 (-7).
+  Rabs (((Rlit 5 (-5)) * (sin ((((xMprime + Rlit 38581693528 (-8) + eMprime) * (PI / 180) + 2 * IZR m1Mprime * PI) - ((xM + Rlit 291053567 (-7) + eM) * (PI / 180) + 2 * IZR m1M * PI)) - ((Rlit 20 (-1)) * ((xF + Rlit 39067050284 (-8) + eF) * (PI / 180) + 2 * IZR m1F * PI))))) - ((Rlit 5 (-5)) * (sin (((xMprime * (PI / 180) + 2 * IZR m0Mprime * PI) - (xM * (PI / 180) + 2 * IZR m0M * PI)) - ((Rlit 20 (-1)) * (xF * (PI / 180) + 2 * IZR m0F * PI)))))) <= Rlit 536 (-7).
 Proof.
   intros HM HMprime HF HOmega HE0 HE1 HdE.
   apply abs_le_inv in HM.
@@ -312,17 +313,17 @@ Proof.
   apply abs_le_inv in HF.
   apply abs_le_inv in HOmega.
   apply abs_le_inv in HdE.
-  eapply Rle_trans; [ eapply (term_bound _ _ _ _ (Rlit 4000 (-8)) (Rlit 0 (-9)) (Rlit 85158 (-6))) | lit; lra ].
+  eapply Rle_trans; [ eapply (term_bound _ _ _ _ (Rlit 5000 (-8)) (Rlit 0 (-9)) (Rlit 535065 (-6))) | lit; lra ].
   - lit. apply abs_le. lra.
   - lit. apply abs_le. lra.
-  - replace ((((Rlit 20 (-1)) * (((xMprime + Rlit 38581693528 (-8) + eMprime) * (PI / 180) + 2 * IZR m1Mprime * PI) - ((xF + Rlit 39067050284 (-8) + eF) * (PI / 180) + 2 * IZR m1F * PI))) - ((Rlit 20 (-1)) * ((xMprime * (PI / 180) + 2 * IZR m0Mprime * PI) - (xF * (PI / 180) + 2 * IZR m0F * PI)))) / 2) with ((IZR (2) * (Rlit 38581693528 (-8) + eMprime) + IZR (-2) * (Rlit 39067050284 (-8) + eF)) * (PI / 360) + IZR ((2) * (m1Mprime - m0Mprime) + (-2) * (m1F - m0F)) * PI)
+  - replace ((((((xMprime + Rlit 38581693528 (-8) + eMprime) * (PI / 180) + 2 * IZR m1Mprime * PI) - ((xM + Rlit 291053567 (-7) + eM) * (PI / 180) + 2 * IZR m1M * PI)) - ((Rlit 20 (-1)) * ((xF + Rlit 39067050284 (-8) + eF) * (PI / 180) + 2 * IZR m1F * PI))) - (((xMprime * (PI / 180) + 2 * IZR m0Mprime * PI) - (xM * (PI / 180) + 2 * IZR m0M * PI)) - ((Rlit 20 (-1)) * (xF * (PI / 180) + 2 * IZR m0F * PI)))) / 2) with ((IZR (1) * (Rlit 38581693528 (-8) + eMprime) + IZR (-1) * (Rlit 291053567 (-7) + eM) + IZR (-2) * (Rlit 39067050284 (-8) + eF)) * (PI / 360) + IZR ((1) * (m1Mprime - m0Mprime) + (-1) * (m1M - m0M) + (-2) * (m1F - m0F)) * PI)
       by (rewrite ?plus_IZR, ?mult_IZR, ?minus_IZR, ?opp_IZR; lit; field).
     rewrite abs_sin_shift. lit. apply abs_le. split; interval.
   - lit. lra.
 Qed.
 Lemma term_17 (xM eM xMprime eMprime xF eF xOmega eOmega E0 dE : R) (m0M m1M m0Mprime m1Mprime m0F m1F m0Omega m1Omega : Z) :
   Rabs eM <= 1 / 100 -> Rabs eMprime <= 1 / 100 -> Rabs eF <= 1 / 100 -> Rabs eOmega <= 1 / 100 -> 8 / 10 <= E0 <= 10908 / 10000 -> 8 / 10 <= E0 + dE <= 10908 / 10000 -> Rabs dE <= 1 / 10000 ->
-  Rabs (((Rlit 4 (-5)) * (sin ((Rlit 30 (-1)) * ((xM + Rlit 291053567 (-7) + eM) * (PI / 180) + 2 * IZR m1M * PI)))) - ((Rlit 4 (-5)) * (sin ((Rlit 30 (-1)) * (xM * (PI / 180) + 2 * IZR m0M * PI))))) <= Rlit 553 (-7).
+  Rabs (((Rlit 4 (-5)) * (sin ((Rlit 20 (-1)) * (((xMprime + Rlit 38581693528 (-8) + eMprime) * (PI / 180) + 2 * IZR m1Mprime * PI) + ((xF + Rlit 39067050284 (-8) + eF) * (PI / 180) + 2 * IZR m1F * PI))))) - ((Rlit 4 (-5)) * (sin ((Rlit 20 (-1)) * ((xMprime * (PI / 180) + 2 * IZR m0Mprime * PI) + (xF * (PI / 180) + 2 * IZR m0F * PI)))))) <= Rlit 668 (-7).
 Proof.
   intros HM HMprime HF HOmega HE0 HE1 HdE.
   apply abs_le_inv in HM.
@@ -330,15 +331,51 @@ Proof.
   apply abs_le_inv in HF.
   apply abs_le_inv in HOmega.
   apply abs_le_inv in HdE.
-  eapply Rle_trans; [ eapply (term_bound _ _ _ _ (Rlit 4000 (-8)) (Rlit 0 (-9)) (Rlit 690743 (-6))) | lit; lra ].
+  eapply Rle_trans; [ eapply (term_bound _ _ _ _ (Rlit 4000 (-8)) (Rlit 0 (-9)) (Rlit 834158 (-6))) | lit; lra ].
   - lit. apply abs_le. lra.
   - lit. apply abs_le. lra.
-  - replace ((((Rlit 30 (-1)) * ((xM + Rlit 291053567 (-7) + eM) * (PI / 180) + 2 * IZR m1M * PI)) - ((Rlit 30 (-1)) * (xM * (PI / 180) + 2 * IZR m0M * PI))) / 2) with ((IZR (3) * (Rlit 291053567 (-7) + eM)) * (PI / 360) + IZR ((3) * (m1M - m0M)) * PI)
+  - replace ((((Rlit 20 (-1)) * (((xMprime + Rlit 38581693528 (-8) + eMprime) * (PI / 180) + 2 * IZR m1Mprime * PI) + ((xF + Rlit 39067050284 (-8) + eF) * (PI / 180) + 2 * IZR m1F * PI))) - ((Rlit 20 (-1)) * ((xMprime * (PI / 180) + 2 * IZR m0Mprime * PI) + (xF * (PI / 180) + 2 * IZR m0F * PI)))) / 2) with ((IZR (2) * (Rlit 38581693528 (-8) + eMprime) + IZR (2) * (Rlit 39067050284 (-8) + eF)) * (PI / 360) + IZR ((2) * (m1Mprime - m0Mprime) + (2) * (m1F - m0F)) * PI)
       by (rewrite ?plus_IZR, ?mult_IZR, ?minus_IZR, ?opp_IZR; lit; field).
     rewrite abs_sin_shift. lit. apply abs_le. split; interval.
   - lit. lra.
 Qed.
 Lemma term_18 (xM eM xMprime eMprime xF eF xOmega eOmega E0 dE : R) (m0M m1M m0Mprime m1Mprime m0F m1F m0Omega m1Omega : Z) :
+  Rabs eM <= 1 / 100 -> Rabs eMprime <= 1 / 100 -> Rabs eF <= 1 / 100 -> Rabs eOmega <= 1 / 100 -> 8 / 10 <= E0 <= 10908 / 10000 -> 8 / 10 <= E0 + dE <= 10908 / 10000 -> Rabs dE <= 1 / 10000 ->
+  Rabs (((Rlit 4 (-5)) * (sin ((((xMprime + Rlit 38581693528 (-8) + eMprime) * (PI / 180) + 2 * IZR m1Mprime * PI) + ((xM + Rlit 291053567 (-7) + eM) * (PI / 180) + 2 * IZR m1M * PI)) + ((Rlit 20 (-1)) * ((xF + Rlit 39067050284 (-8) + eF) * (PI / 180) + 2 * IZR m1F * PI))))) - ((Rlit 4 (-5)) * (sin (((xMprime * (PI / 180) + 2 * IZR m0Mprime * PI) + (xM * (PI / 180) + 2 * IZR m0M * PI)) + ((Rlit 20 (-1)) * (xF * (PI / 180) + 2 * IZR m0F * PI)))))) <= Rlit 680 (-7).
+Proof.
+  intros HM HMprime HF HOmega HE0 HE1 HdE.
+  apply abs_le_inv in HM.
+  apply abs_le_inv in HMprime.
+  apply abs_le_inv in HF.
+  apply abs_le_inv in HOmega.
+  apply abs_le_inv in HdE.
+  eapply Rle_trans; [ eapply (term_bound _ _ _ _ (Rlit 4000 (-8)) (Rlit 0 (-9)) (Rlit 849648 (-6))) | lit; lra ].
+  - lit. apply abs_le. lra.
+  - lit. apply abs_le. lra.
+  - replace ((((((xMprime + Rlit 38581693528 (-8) + eMprime) * (PI / 180) + 2 * IZR m1Mprime * PI) + ((xM + Rlit 291053567 (-7) + eM) * (PI / 180) + 2 * IZR m1M * PI)) + ((Rlit 20 (-1)) * ((xF + Rlit 39067050284 (-8) + eF) * (PI / 180) + 2 * IZR m1F * PI))) - (((xMprime * (PI / 180) + 2 * IZR m0Mprime * PI) + (xM * (PI / 180) + 2 * IZR m0M * PI)) + ((Rlit 20 (-1)) * (xF * (PI / 180) + 2 * IZR m0F * PI)))) / 2) with ((IZR (1) * (Rlit 38581693528 (-8) + eMprime) + IZR (1) * (Rlit 291053567 (-7) + eM) + IZR (2) * (Rlit 39067050284 (-8) + eF)) * (PI / 360) + IZR ((1) * (m1Mprime - m0Mprime) + (1) * (m1M - m0M) + (2) * (m1F - m0F)) * PI)
+      by (rewrite ?plus_IZR, ?mult_IZR, ?minus_IZR, ?opp_IZR; lit; field).
+    rewrite abs_sin_shift. lit. apply abs_le. split; interval.
+  - lit. lra.
+Qed.
+Lemma term_19 (xM eM xMprime eMprime xF eF xOmega eOmega E0 dE : R) (m0M m1M m0Mprime m1Mprime m0F m1F m0Omega m1Omega : Z) :
+  Rabs eM <= 1 / 100 -> Rabs eMprime <= 1 / 100 -> Rabs eF <= 1 / 100 -> Rabs eOmega <= 1 / 100 -> 8 / 10 <= E0 <= 10908 / 10000 -> 8 / 10 <= E0 + dE <= 10908 / 10000 -> Rabs dE <= 1 / 10000 ->
+  Rabs (((Rlit 4 (-5)) * (sin (((xMprime + Rlit 38581693528 (-8) + eMprime) * (PI / 180) + 2 * IZR m1Mprime * PI) - ((Rlit 20 (-1)) * ((xM + Rlit 291053567 (-7) + eM) * (PI / 180) + 2 * IZR m1M * PI))))) - ((Rlit 4 (-5)) * (sin ((xMprime * (PI / 180) + 2 * IZR m0Mprime * PI) - ((Rlit 20 (-1)) * (xM * (PI / 180) + 2 * IZR m0M * PI)))))) <= Rlit 224 (-7).
+Proof.
+  intros HM HMprime HF HOmega HE0 HE1 HdE.
+  apply abs_le_inv in HM.
+  apply abs_le_inv in HMprime.
+  apply abs_le_inv in HF.
+  apply abs_le_inv in HOmega.
+  apply abs_le_inv in HdE.
+  eapply Rle_trans; [ eapply (term_bound _ _ _ _ (Rlit 4000 (-8)) (Rlit 0 (-9)) (Rlit 279391 (-6))) | lit; lra ].
+  - lit. apply abs_le. lra.
+  - lit. apply abs_le. lra.
+  - replace (((((xMprime + Rlit 38581693528 (-8) + eMprime) * (PI / 180) + 2 * IZR m1Mprime * PI) - ((Rlit 20 (-1)) * ((xM + Rlit 291053567 (-7) + eM) * (PI / 180) + 2 * IZR m1M * PI))) - ((xMprime * (PI / 180) + 2 * IZR m0Mprime * PI) - ((Rlit 20 (-1)) * (xM * (PI / 180) + 2 * IZR m0M * PI)))) / 2) with ((IZR (1) * (Rlit 38581693528 (-8) + eMprime) + IZR (-2) * (Rlit 291053567 (-7) + eM)) * (PI / 360) + IZR ((1) * (m1Mprime - m0Mprime) + (-2) * (m1M - m0M)) * PI)
+      by (rewrite ?plus_IZR, ?mult_IZR, ?minus_IZR, ?opp_IZR; lit; field).
+    rewrite abs_sin_shift. lit. apply abs_le. split; interval.
+  - lit. lra.
+Qed.
+Lemma term_20 (xM eM xMprime eMprime xF eF xOmega eOmega E0 dE : R) (m0M m1M m0Mprime m1Mprime m0F m1F m0Omega m1Omega : Z) :
   Rabs eM <= 1 / 100 -> Rabs eMprime <= 1 / 100 -> Rabs eF <= 1 / 100 -> Rabs eOmega <= 1 / 100 -> 8 / 10 <= E0 <= 10908 / 10000 -> 8 / 10 <= E0 + dE <= 10908 / 10000 -> Rabs dE <= 1 / 10000 ->
   Rabs (((Rlit 3 (-5)) * (sin ((((xMprime + Rlit 38581693528 (-8) + eMprime) * (PI / 180) + 2 * IZR m1Mprime * PI) + ((xM + Rlit 291053567 (-7) + eM) * (PI / 180) + 2 * IZR m1M * PI)) - ((Rlit 20 (-1)) * ((xF + Rlit 39067050284 (-8) + eF) * (PI / 180) + 2 * IZR m1F * PI))))) - ((Rlit 3 (-5)) * (sin (((xMprime * (PI / 180) + 2 * IZR m0Mprime * PI) + (xM * (PI / 180) + 2 * IZR m0M * PI)) - ((Rlit 20 (-1)) * (xF * (PI / 180) + 2 * IZR m0F * PI)))))) <= Rlit 34 (-7).
 Proof.
@@ -356,45 +393,9 @@ Proof.
     rewrite abs_sin_shift. lit. apply abs_le. split; interval.
   - lit. lra.
 Qed.
-Lemma term_19 (xM eM xMprime eMprime xF eF xOmega eOmega E0 dE : R) (m0M m1M m0Mprime m1Mprime m0F m1F m0Omega m1Omega : Z) :
-  Rabs eM <= 1 / 100 -> Rabs eMprime <= 1 / 100 -> Rabs eF <= 1 / 100 -> Rabs eOmega <= 1 / 100 -> 8 / 10 <= E0 <= 10908 / 10000 -> 8 / 10 <= E0 + dE <= 10908 / 10000 -> Rabs dE <= 1 / 10000 ->
-  Rabs (((Rlit 3 (-5)) * (sin ((Rlit 20 (-1)) * (((xMprime + Rlit 38581693528 (-8) + eMprime) * (PI / 180) + 2 * IZR m1Mprime * PI) + ((xF + Rlit 39067050284 (-8) + eF) * (PI / 180) + 2 * IZR m1F * PI))))) - ((Rlit 3 (-5)) * (sin ((Rlit 20 (-1)) * ((xMprime * (PI / 180) + 2 * IZR m0Mprime * PI) + (xF * (PI / 180) + 2 * IZR m0F * PI)))))) <= Rlit 501 (-7).
-Proof.
-  intros HM HMprime HF HOmega HE0 HE1 HdE.
-  apply abs_le_inv in HM.
-  apply abs_le_inv in HMprime.
-  apply abs_le_inv in HF.
-  apply abs_le_inv in HOmega.
-  apply abs_le_inv in HdE.
-  eapply Rle_trans; [ eapply (term_bound _ _ _ _ (Rlit 3000 (-8)) (Rlit 0 (-9)) (Rlit 834158 (-6))) | lit; lra ].
-  - lit. apply abs_le. lra.
-  - lit. apply abs_le. lra.
-  - replace ((((Rlit 20 (-1)) * (((xMprime + Rlit 38581693528 (-8) + eMprime) * (PI / 180) + 2 * IZR m1Mprime * PI) + ((xF + Rlit 39067050284 (-8) + eF) * (PI / 180) + 2 * IZR m1F * PI))) - ((Rlit 20 (-1)) * ((xMprime * (PI / 180) + 2 * IZR m0Mprime * PI) + (xF * (PI / 180) + 2 * IZR m0F * PI)))) / 2) with ((IZR (2) * (Rlit 38581693528 (-8) + eMprime) + IZR (2) * (Rlit 39067050284 (-8) + eF)) * (PI / 360) + IZR ((2) * (m1Mprime - m0Mprime) + (2) * (m1F - m0F)) * PI)
-      by (rewrite ?plus_IZR, ?mult_IZR, ?minus_IZR, ?opp_IZR; lit; field).
-    rewrite abs_sin_shift. lit. apply abs_le. split; interval.
-  - lit. lra.
-Qed.
-Lemma term_20 (xM eM xMprime eMprime xF eF xOmega eOmega E0 dE : R) (m0M m1M m0Mprime m1Mprime m0F m1F m0Omega m1Omega : Z) :
-  Rabs eM <= 1 / 100 -> Rabs eMprime <= 1 / 100 -> Rabs eF <= 1 / 100 -> Rabs eOmega <= 1 / 100 -> 8 / 10 <= E0 <= 10908 / 10000 -> 8 / 10 <= E0 + dE <= 10908 / 10000 -> Rabs dE <= 1 / 10000 ->
-  Rabs (((Rlit 3 (-5)) * (sin ((((xMprime + Rlit 38581693528 (-8) + eMprime) * (PI / 180) + 2 * IZR m1Mprime * PI) + ((xM + Rlit 291053567 (-7) + eM) * (PI / 180) + 2 * IZR m1M * PI)) + ((Rlit 20 (-1)) * ((xF + Rlit 39067050284 (-8) + eF) * (PI / 180) + 2 * IZR m1F * PI))))) - ((Rlit 3 (-5)) * (sin (((xMprime * (PI / 180) + 2 * IZR m0Mprime * PI) + (xM * (PI / 180) + 2 * IZR m0M * PI)) + ((Rlit 20 (-1)) * (xF * (PI / 180) + 2 * IZR m0F * PI)))))) <= Rlit 510 (-7).
-Proof.
-  intros HM HMprime HF HOmega HE0 HE1 HdE.
-  apply abs_le_inv in HM.
-  apply abs_le_inv in HMprime.
-  apply abs_le_inv in HF.
-  apply abs_le_inv in HOmega.
-  apply abs_le_inv in HdE.
-  eapply Rle_trans; [ eapply (term_bound _ _ _ _ (Rlit 3000 (-8)) (Rlit 0 (-9)) (Rlit 849648 (-6))) | lit; lra ].
-  - lit. apply abs_le. lra.
-  - lit. apply abs_le. lra.
-  - replace ((((((xMprime + Rlit 38581693528 (-8) + eMprime) * (PI / 180) + 2 * IZR m1Mprime * PI) + ((xM + Rlit 291053567 (-7) + eM) * (PI / 180) + 2 * IZR m1M * PI)) + ((Rlit 20 (-1)) * ((xF + Rlit 39067050284 (-8) + eF) * (PI / 180) + 2 * IZR m1F * PI))) - (((xMprime * (PI / 180) + 2 * IZR m0Mprime * PI) + (xM * (PI / 180) + 2 * IZR m0M * PI)) + ((Rlit 20 (-1)) * (xF * (PI / 180) + 2 * IZR m0F * PI)))) / 2) with ((IZR (1) * (Rlit 38581693528 (-8) + eMprime) + IZR (1) * (Rlit 291053567 (-7) + eM) + IZR (2) * (Rlit 39067050284 (-8) + eF)) * (PI / 360) + IZR ((1) * (m1Mprime - m0Mprime) + (1) * (m1M - m0M) + (2) * (m1F - m0F)) * PI)
-      by (rewrite ?plus_IZR, ?mult_IZR, ?minus_IZR, ?opp_IZR; lit; field).
-    rewrite abs_sin_shift. lit. apply abs_le. split; interval.
-  - lit. lra.
-Qed.
 Lemma term_21 (xM eM xMprime eMprime xF eF xOmega eOmega E0 dE : R) (m0M m1M m0Mprime m1Mprime m0F m1F m0Omega m1Omega : Z) :
   Rabs eM <= 1 / 100 -> Rabs eMprime <= 1 / 100 -> Rabs eF <= 1 / 100 -> Rabs eOmega <= 1 / 100 -> 8 / 10 <= E0 <= 10908 / 10000 -> 8 / 10 <= E0 + dE <= 10908 / 10000 -> Rabs dE <= 1 / 10000 ->
-  Rabs (((Rlit 3 (-5)) * (sin ((((xMprime + Rlit 38581693528 (-8) + eMprime) * (PI / 180) + 2 * IZR m1Mprime * PI) - ((xM + Rlit 291053567 (-7) + eM) * (PI / 180) + 2 * IZR m1M * PI)) + ((Rlit 20 (-1)) * ((xF + Rlit 39067050284 (-8) + eF) * (PI / 180) + 2 * IZR m1F * PI))))) - ((Rlit 3 (-5)) * (sin (((xMprime * (PI / 180) + 2 * IZR m0Mprime * PI) - (xM * (PI / 180) + 2 * IZR m0M * PI)) + ((Rlit 20 (-1)) * (xF * (PI / 180) + 2 * IZR m0F * PI)))))) <= Rlit 292 (-7).
+  Rabs (((Rlit 3 (-5)) * (sin ((Rlit 30 (-1)) * ((xM + Rlit 291053567 (-7) + eM) * (PI / 180) + 2 * IZR m1M * PI)))) - ((Rlit 3 (-5)) * (sin ((Rlit 30 (-1)) * (xM * (PI / 180) + 2 * IZR m0M * PI))))) <= Rlit 415 (-7).
 Proof.
   intros HM HMprime HF HOmega HE0 HE1 HdE.
   apply abs_le_inv in HM.
@@ -402,7 +403,43 @@ Proof.
   apply abs_le_inv in HF.
   apply abs_le_inv in HOmega.
   apply abs_le_inv in HdE.
-  eapply Rle_trans; [ eapply (term_bound _ _ _ _ (Rlit 3000 (-8)) (Rlit 0 (-9)) (Rlit 485717 (-6))) | lit; lra ].
+  eapply Rle_trans; [ eapply (term_bound _ _ _ _ (Rlit 3000 (-8)) (Rlit 0 (-9)) (Rlit 690743 (-6))) | lit; lra ].
+  - lit. apply abs_le. lra.
+  - lit. apply abs_le. lra.
+  - replace ((((Rlit 30 (-1)) * ((xM + Rlit 291053567 (-7) + eM) * (PI / 180) + 2 * IZR m1M * PI)) - ((Rlit 30 (-1)) * (xM * (PI / 180) + 2 * IZR m0M * PI))) / 2) with ((IZR (3) * (Rlit 291053567 (-7) + eM)) * (PI / 360) + IZR ((3) * (m1M - m0M)) * PI)
+      by (rewrite ?plus_IZR, ?mult_IZR, ?minus_IZR, ?opp_IZR; lit; field).
+    rewrite abs_sin_shift. lit. apply abs_le. split; interval.
+  - lit. lra.
+Qed.
+Lemma term_22 (xM eM xMprime eMprime xF eF xOmega eOmega E0 dE : R) (m0M m1M m0Mprime m1Mprime m0F m1F m0Omega m1Omega : Z) :
+  Rabs eM <= 1 / 100 -> Rabs eMprime <= 1 / 100 -> Rabs eF <= 1 / 100 -> Rabs eOmega <= 1 / 100 -> 8 / 10 <= E0 <= 10908 / 10000 -> 8 / 10 <= E0 + dE <= 10908 / 10000 -> Rabs dE <= 1 / 10000 ->
+  Rabs (((Rlit 2 (-5)) * (sin ((Rlit 20 (-1)) * (((xMprime + Rlit 38581693528 (-8) + eMprime) * (PI / 180) + 2 * IZR m1Mprime * PI) - ((xF + Rlit 39067050284 (-8) + eF) * (PI / 180) + 2 * IZR m1F * PI))))) - ((Rlit 2 (-5)) * (sin ((Rlit 20 (-1)) * ((xMprime * (PI / 180) + 2 * IZR m0Mprime * PI) - (xF * (PI / 180) + 2 * IZR m0F * PI)))))) <= Rlit 35 (-7).
+Proof.
+  intros HM HMprime HF HOmega HE0 HE1 HdE.
+  apply abs_le_inv in HM.
+  apply abs_le_inv in HMprime.
+  apply abs_le_inv in HF.
+  apply abs_le_inv in HOmega.
+  apply abs_le_inv in HdE.
+  eapply Rle_trans; [ eapply (term_bound _ _ _ _ (Rlit 2000 (-8)) (Rlit 0 (-9)) (Rlit 85158 (-6))) | lit; lra ].
+  - lit. apply abs_le. lra.
+  - lit. apply abs_le. lra.
+  - replace ((((Rlit 20 (-1)) * (((xMprime + Rlit 38581693528 (-8) + eMprime) * (PI / 180) + 2 * IZR m1Mprime * PI) - ((xF + Rlit 39067050284 (-8) + eF) * (PI / 180) + 2 * IZR m1F * PI))) - ((Rlit 20 (-1)) * ((xMprime * (PI / 180) + 2 * IZR m0Mprime * PI) - (xF * (PI / 180) + 2 * IZR m0F * PI)))) / 2) with ((IZR (2) * (Rlit 38581693528 (-8) + eMprime) + IZR (-2) * (Rlit 39067050284 (-8) + eF)) * (PI / 360) + IZR ((2) * (m1Mprime - m0Mprime) + (-2) * (m1F - m0F)) * PI)
+      by (rewrite ?plus_IZR, ?mult_IZR, ?minus_IZR, ?opp_IZR; lit; field).
+    rewrite abs_sin_shift. lit. apply abs_le. split; interval.
+  - lit. lra.
+Qed.
+Lemma term_23 (xM eM xMprime eMprime xF eF xOmega eOmega E0 dE : R) (m0M m1M m0Mprime m1Mprime m0F m1F m0Omega m1Omega : Z) :
+  Rabs eM <= 1 / 100 -> Rabs eMprime <= 1 / 100 -> Rabs eF <= 1 / 100 -> Rabs eOmega <= 1 / 100 -> 8 / 10 <= E0 <= 10908 / 10000 -> 8 / 10 <= E0 + dE <= 10908 / 10000 -> Rabs dE <= 1 / 10000 ->
+  Rabs (((Rlit 2 (-5)) * (sin ((((xMprime + Rlit 38581693528 (-8) + eMprime) * (PI / 180) + 2 * IZR m1Mprime * PI) - ((xM + Rlit 291053567 (-7) + eM) * (PI / 180) + 2 * IZR m1M * PI)) + ((Rlit 20 (-1)) * ((xF + Rlit 39067050284 (-8) + eF) * (PI / 180) + 2 * IZR m1F * PI))))) - ((Rlit 2 (-5)) * (sin (((xMprime * (PI / 180) + 2 * IZR m0Mprime * PI) - (xM * (PI / 180) + 2 * IZR m0M * PI)) + ((Rlit 20 (-1)) * (xF * (PI / 180) + 2 * IZR m0F * PI)))))) <= Rlit 195 (-7).
+Proof.
+  intros HM HMprime HF HOmega HE0 HE1 HdE.
+  apply abs_le_inv in HM.
+  apply abs_le_inv in HMprime.
+  apply abs_le_inv in HF.
+  apply abs_le_inv in HOmega.
+  apply abs_le_inv in HdE.
+  eapply Rle_trans; [ eapply (term_bound _ _ _ _ (Rlit 2000 (-8)) (Rlit 0 (-9)) (Rlit 485717 (-6))) | lit; lra ].
   - lit. apply abs_le. lra.
   - lit. apply abs_le. lra.
   - replace ((((((xMprime + Rlit 38581693528 (-8) + eMprime) * (PI / 180) + 2 * IZR m1Mprime * PI) - ((xM + Rlit 291053567 (-7) + eM) * (PI / 180) + 2 * IZR m1M * PI)) + ((Rlit 20 (-1)) * ((xF + Rlit 39067050284 (-8) + eF) * (PI / 180) + 2 * IZR m1F * PI))) - (((xMprime * (PI / 180) + 2 * IZR m0Mprime * PI) - (xM * (PI / 180) + 2 * IZR m0M * PI)) + ((Rlit 20 (-1)) * (xF * (PI / 180) + 2 * IZR m0F * PI)))) / 2) with ((IZR (1) * (Rlit 38581693528 (-8) + eMprime) + IZR (-1) * (Rlit 291053567 (-7) + eM) + IZR (2) * (Rlit 39067050284 (-8) + eF)) * (PI / 360) + IZR ((1) * (m1Mprime - m0Mprime) + (-1) * (m1M - m0M) + (2) * (m1F - m0F)) * PI)
@@ -410,25 +447,7 @@ Proof.
     rewrite abs_sin_shift. lit. apply abs_le. split; interval.
   - lit. lra.
 Qed.
-Lemma term_22 (xM eM xMprime eMprime xF eF xOmega eOmega E0 dE : R) (m0M m1M m0Mprime m1Mprime m0F m1F m0Omega m1Omega : Z) :
-  Rabs eM <= 1 / 100 -> Rabs eMprime <= 1 / 100 -> Rabs eF <= 1 / 100 -> Rabs eOmega <= 1 / 100 -> 8 / 10 <= E0 <= 10908 / 10000 -> 8 / 10 <= E0 + dE <= 10908 / 10000 -> Rabs dE <= 1 / 10000 ->
-  Rabs (((Rlit 2 (-5)) * (sin ((((xMprime + Rlit 38581693528 (-8) + eMprime) * (PI / 180) + 2 * IZR m1Mprime * PI) - ((xM + Rlit 291053567 (-7) + eM) * (PI / 180) + 2 * IZR m1M * PI)) - ((Rlit 20 (-1)) * ((xF + Rlit 39067050284 (-8) + eF) * (PI / 180) + 2 * IZR m1F * PI))))) - ((Rlit 2 (-5)) * (sin (((xMprime * (PI / 180) + 2 * IZR m0Mprime * PI) - (xM * (PI / 180) + 2 * IZR m0M * PI)) - ((Rlit 20 (-1)) * (xF * (PI / 180) + 2 * IZR m0F * PI)))))) <= Rlit 215 (-7).
-Proof.
-  intros HM HMprime HF HOmega HE0 HE1 HdE.
-  apply abs_le_inv in HM.
-  apply abs_le_inv in HMprime.
-  apply abs_le_inv in HF.
-  apply abs_le_inv in HOmega.
-  apply abs_le_inv in HdE.
-  eapply Rle_trans; [ eapply (term_bound _ _ _ _ (Rlit 2000 (-8)) (Rlit 0 (-9)) (Rlit 535065 (-6))) | lit; lra ].
-  - lit. apply abs_le. lra.
-  - lit. apply abs_le. lra.
-  - replace ((((((xMprime + Rlit 38581693528 (-8) + eMprime) * (PI / 180) + 2 * IZR m1Mprime * PI) - ((xM + Rlit 291053567 (-7) + eM) * (PI / 180) + 2 * IZR m1M * PI)) - ((Rlit 20 (-1)) * ((xF + Rlit 39067050284 (-8) + eF) * (PI / 180) + 2 * IZR m1F * PI))) - (((xMprime * (PI / 180) + 2 * IZR m0Mprime * PI) - (xM * (PI / 180) + 2 * IZR m0M * PI)) - ((Rlit 20 (-1)) * (xF * (PI / 180) + 2 * IZR m0F * PI)))) / 2) with ((IZR (1) * (Rlit 38581693528 (-8) + eMprime) + IZR (-1) * (Rlit 291053567 (-7) + eM) + IZR (-2) * (Rlit 39067050284 (-8) + eF)) * (PI / 360) + IZR ((1) * (m1Mprime - m0Mprime) + (-1) * (m1M - m0M) + (-2) * (m1F - m0F)) * PI)
-      by (rewrite ?plus_IZR, ?mult_IZR, ?minus_IZR, ?opp_IZR; lit; field).
-    rewrite abs_sin_shift. lit. apply abs_le. split; interval.
-  - lit. lra.
-Qed.
-Lemma term_23 (xM eM xMprime eMprime xF eF xOmega eOmega E0 dE : R) (m0M m1M m0Mprime m1Mprime m0F m1F m0Omega m1Omega : Z) :
+Lemma term_24 (xM eM xMprime eMprime xF eF xOmega eOmega E0 dE : R) (m0M m1M m0Mprime m1Mprime m0F m1F m0Omega m1Omega : Z) :
   Rabs eM <= 1 / 100 -> Rabs eMprime <= 1 / 100 -> Rabs eF <= 1 / 100 -> Rabs eOmega <= 1 / 100 -> 8 / 10 <= E0 <= 10908 / 10000 -> 8 / 10 <= E0 + dE <= 10908 / 10000 -> Rabs dE <= 1 / 10000 ->
   Rabs (((Rlit 2 (-5)) * (sin (((Rlit 30 (-1)) * ((xMprime + Rlit 38581693528 (-8) + eMprime) * (PI / 180) + 2 * IZR m1Mprime * PI)) + ((xM + Rlit 291053567 (-7) + eM) * (PI / 180) + 2 * IZR m1M * PI)))) - ((Rlit 2 (-5)) * (sin (((Rlit 30 (-1)) * (xMprime * (PI / 180) + 2 * IZR m0Mprime * PI)) + (xM * (PI / 180) + 2 * IZR m0M * PI))))) <= Rlit 321 (-7).
 Proof.
@@ -446,26 +465,8 @@ Proof.
     rewrite abs_sin_shift. lit. apply abs_le. split; interval.
   - lit. lra.
 Qed.
-Lemma term_24 (xM eM xMprime eMprime xF eF xOmega eOmega E0 dE : R) (m0M m1M m0Mprime m1Mprime m0F m1F m0Omega m1Omega : Z) :
-  Rabs eM <= 1 / 100 -> Rabs eMprime <= 1 / 100 -> Rabs eF <= 1 / 100 -> Rabs eOmega <= 1 / 100 -> 8 / 10 <= E0 <= 10908 / 10000 -> 8 / 10 <= E0 + dE <= 10908 / 10000 -> Rabs dE <= 1 / 10000 ->
-  Rabs (((Rlit 2 (-5)) * (sin ((Rlit 40 (-1)) * ((xMprime + Rlit 38581693528 (-8) + eMprime) * (PI / 180) + 2 * IZR m1Mprime * PI)))) - ((Rlit 2 (-5)) * (sin ((Rlit 40 (-1)) * (xMprime * (PI / 180) + 2 * IZR m0Mprime * PI))))) <= Rlit 314 (-7).
-Proof.
-  intros HM HMprime HF HOmega HE0 HE1 HdE.
-  apply abs_le_inv in HM.
-  apply abs_le_inv in HMprime.
-  apply abs_le_inv in HF.
-  apply abs_le_inv in HOmega.
-  apply abs_le_inv in HdE.
-  eapply Rle_trans; [ eapply (term_bound _ _ _ _ (Rlit 2000 (-8)) (Rlit 0 (-9)) (Rlit 784478 (-6))) | lit; lra ].
-  - lit. apply abs_le. lra.
-  - lit. apply abs_le. lra.
-  - replace ((((Rlit 40 (-1)) * ((xMprime + Rlit 38581693528 (-8) + eMprime) * (PI / 180) + 2 * IZR m1Mprime * PI)) - ((Rlit 40 (-1)) * (xMprime * (PI / 180) + 2 * IZR m0Mprime * PI))) / 2) with ((IZR (4) * (Rlit 38581693528 (-8) + eMprime)) * (PI / 360) + IZR ((4) * (m1Mprime - m0Mprime)) * PI)
-      by (rewrite ?plus_IZR, ?mult_IZR, ?minus_IZR, ?opp_IZR; lit; field).
-    rewrite abs_sin_shift. lit. apply abs_le. split; interval.
-  - lit. lra.
-Qed.
 
-Definition corr_step_bound : R := Rlit 313598 (-6).
+Definition corr_step_bound : R := Rlit 410035 (-6).
 Definition win (k : R) : Prop := -41 <= k / P.cc <= 21.
 Lemma t_succ k : P.v_t_1 (k + 1) = P.v_t_1 k + 1 / P.cc.
 Proof. unfold P.v_t_1, P.f_t_1, P.cc. lit. field. Qed.
@@ -588,18 +589,18 @@ Proof.
   pose proof (abs_le_inv _ _ (term_24 xM eM xMprime eMprime xF eF xOmega eOmega E0 dE m0M m1M m0Mprime m1Mprime m0F m1F m0Omega m1Omega BM BMprime BF BOmega HE0 HE1 HdE)) as T24. revert T24. lit. intro T24.
   unfold corr_step_bound. lit. apply abs_le. split; lra.
 Qed.
-Lemma w_amp k : win k -> Rabs (P.v_w_1 k - Rlit 0 (-5)) <= 1 / 1000.
+Lemma w_amp k : win k -> Rabs (P.v_w_3 k - Rlit (-306) (-5)) <= 1 / 1000.
 Proof.
-  intro W. pose proof (E_bounds k W) as HE. unfold P.v_w_1.
+  intro W. pose proof (E_bounds k W) as HE. unfold P.v_w_3, P.v_w_2, P.v_w_1.
   generalize dependent (P.v_E_1 k). intros E0 HE.
   generalize (P.v_Mr_1 k); intro.
   generalize (P.v_Mprimer_1 k); intro.
   generalize (P.v_Fr_1 k); intro.
   generalize (P.v_Omegar_1 k); intro.
-  unfold P.f_w_1. lit. apply abs_le. split; interval.
+  unfold P.f_w_3, P.f_w_2, P.f_w_1. lit. apply abs_le. split; interval.
 Qed.
-(* consecutive results (index k and k+1, both in the window): one synodic month 29.530588861 d within 33 / 100 d *)
-Theorem step k : win k -> win (k + 1) -> Rabs (P.v_jde_2 (k + 1) - P.v_jde_2 k - P.B) <= 33 / 100.
+(* consecutive results (index k and k+1, both in the window): one synodic month 29.530588861 d within 42 / 100 d *)
+Theorem step k : win k -> win (k + 1) -> Rabs (P.v_jde_2 (k + 1) - P.v_jde_2 k - P.B) <= 42 / 100.
 Proof.
   intros W0 W1.
   pose proof (abs_le_inv _ _ (corr_step k W0 W1)) as HC. pose proof (abs_le_inv _ _ (Q_step k W0)) as HQ.
@@ -607,11 +608,11 @@ Proof.
   pose proof (abs_le_inv _ _ (w_amp k W0)) as HW0. pose proof (abs_le_inv _ _ (w_amp (k + 1) W1)) as HW1.
   assert (HS : P.v_jde_2 (k + 1) - P.v_jde_2 k - P.B = (P.f_Q (P.v_t_1 (k + 1)) - P.f_Q (P.v_t_1 k))
                + (P.v_corr_2 (k + 1) - P.v_corr_2 k) + (P.v_corr2_1 (k + 1) - P.v_corr2_1 k)
-               + (P.v_w_1 (k + 1) - P.v_w_1 k)).
+               + (P.v_w_3 (k + 1) - P.v_w_3 k)).
   { unfold P.v_jde_2, P.f_jde_2, P.v_jde_1, P.f_jde_1, P.f_Q, P.B. lit. ring. }
   rewrite HS. unfold corr_step_bound in HC. revert HC HW0 HW1. lit. intros HC HW0 HW1. apply abs_le. split; lra.
 Qed.
-Theorem step_days k : win k -> win (k + 1) -> 292 / 10 <= P.v_jde_2 (k + 1) - P.v_jde_2 k <= 299 / 10.
+Theorem step_days k : win k -> win (k + 1) -> 291 / 10 <= P.v_jde_2 (k + 1) - P.v_jde_2 k <= 300 / 10.
 Proof.
   intros W0 W1. pose proof (abs_le_inv _ _ (step k W0 W1)) as H. unfold P.B in H. revert H. lit. intro H. lra.
 Qed.
